@@ -68,7 +68,7 @@ class C10(Prop):
             for _ in range(draw(st.integers(0, 6))):
                 replies.append(
                     [
-                        draw(st.sampled_from([0, 1, 1, 2, 2, 3, 4, 5, 6, 7, 8, 10, 12])),
+                        draw(st.sampled_from([0, 1, 1, 2, 2, 3, 4, 5, 6, 7, 8, 10, 12, 0.5, 1.5, 2.5, 3.5, 4.5, 5.5, 7.5, 9.5])),  # half instants: strictly inside a step's work before/after its waits
                         draw(st.sampled_from(["Reply", "Reply", "Reply", "Reply2", "ReplySub"])),
                         draw(st.sampled_from(KEYS)),
                     ]
@@ -146,7 +146,7 @@ class C10(Prop):
                             raise
                         continue
                     except WaitingForEvent:
-                        wrec["t"], wrec["res"] = VClock.t, "waiting"
+                        wrec["t"], wrec["res"], wrec["s"] = VClock.t, "waiting", rec.nseq()
                         raise
                     wrec["t"], wrec["res"] = VClock.t, "got"
                     wrec["got"] = {"uid": got.get("uid"), "type": type(got).__name__, "key": got.get("key")}
@@ -291,19 +291,51 @@ class C10(Prop):
                     if g["type"] != w["type"]:
                         r.v("wait_returned_wrong_type", got=g["type"], want=w["type"])
                     if w["req"] and g["key"] != (w.get("rkey") or inp["key"]):
-                        # the known rehydration race needs the re-delivered input to be DELAYED: every worker of the waiting step busy
-                        # with other inputs (or the resume instant itself) when the wrong event arrived
-                        sv = sent_by_uid.get(g["uid"])
-                        ts = sv["t"] if sv else None
-                        busy_others = 0
-                        if ts is not None:
+                        # the known rehydration race: requirement values are not serialized, the restored waiter accepts any event of
+                        # its type until the re-delivered input (the first invocation of this input in the resumed life) has
+                        # re-registered it.  Two shapes belong to it:
+                        #  (a) the wrong event arrived while that re-run was still DELAYED in the step's queue (every worker busy with
+                        #      other inputs, or the resume instant itself): the re-run itself is handed the unchecked event;
+                        #  (b) it arrived while the re-run was working towards its wait_for_event call, and a second invocation STARTED
+                        #      before the re-registration was processed (on another worker) with the snapshot holding the unchecked event.
+                        # An invocation started by the re-run's own result (i.e. after the re-registration, which replaces the waiter by a
+                        # fresh unresolved one) is not part of the finding, nor is a first invocation that was not delayed.
+                        def delayed_(uid):
+                            sv = sent_by_uid.get(uid)
+                            ts = sv["t"] if sv else None
+                            if ts is None:
+                                return True
                             busy_others = sum(
                                 1 for e2 in log["entries"]
                                 if e2["seg"] == 1 and e2["idx"] != i and e2["t_in"] <= ts + 1e-9 and (e2["t_out"] is None or e2["t_out"] >= ts - 1e-9)
                             )
-                        delayed = ts is None or busy_others >= case["workers"] or (snap_t is not None and abs(ts - snap_t) < 1e-9)
+                            return busy_others >= case["workers"] or (snap_t is not None and abs(ts - snap_t) < 1e-9)
+
+                        seg1 = sorted((e2 for e2 in ents if e2["seg"] == 1), key=lambda e2: e2["s_in"])
+                        if not resumed or e["seg"] != 1 or not seg1:
+                            before = False
+                        elif e is seg1[0]:
+                            before = delayed_(g["uid"])
+                        else:
+                            R = seg1[0]
+                            r_got = [x2 for x2 in R["waits"] if x2["j"] == j and x2["res"] == "got" and x2["got"]["key"] != (w.get("rkey") or inp["key"])]
+                            rereg = sorted(((x2["t"], x2.get("s", 0), id(e2)) for e2 in seg1 for x2 in e2["waits"] if x2["j"] == j and x2["res"] == "waiting"))
+                            if r_got:
+                                before = delayed_(r_got[0]["got"]["uid"])  # shape (a), replayed
+                            elif not rereg:
+                                before = True  # the re-run was cut short before it reached the wait
+                            elif (e["t_in"], e["s_in"]) < rereg[0][:2]:
+                                before = True
+                            else:
+                                # at one virtual instant the reducer may hand a worker freed by ANOTHER invocation's result to the queued
+                                # replay before it has processed the re-run's own result (a tie); with no other invocation ending at that
+                                # instant the replay can only have been started by the re-run's own result, after the re-registration
+                                t_r, _s_r, rerun = rereg[0]
+                                before = abs(e["t_in"] - t_r) < 1e-9 and any(
+                                    id(e2) not in (rerun, id(e)) and e2["seg"] == 1 and e2["t_out"] is not None and abs(e2["t_out"] - t_r) < 1e-9 for e2 in log["entries"]
+                                )
                         r.v("wait_returned_event_violating_requirement", resumed=resumed, life=e["seg"], req_wait_pending_at_snapshot=rp,
-                            replay_delayed_by_busy_workers=bool(delayed) if resumed else False)
+                            replay_started_before_waiter_reregistered=before)
                 w0 = [x["t"] for e, x in recs if e["seg"] == 0 and x["res"] == "waiting"]
                 if w0:
                     reg0[f"w-{i}-{j}"] = w0[0]
